@@ -35,7 +35,7 @@ type VerifC11Case struct {
 	Kind string `json:"kind"` // "cfg" | "raffle"
 	// cfg
 	Source    string `json:"source"`    // dataset | sample | slow
-	Transform string `json:"transform"` // none | js | jspar
+	Transform string `json:"transform"` // none | js | panic (js + a panic injected right after the transform of a page)
 	Sink      string `json:"sink"`      // devnull | dataset | missing
 	Trigger   string `json:"trigger"`   // cron | onchange
 	JobType   string `json:"jobType"`   // incremental | fullsync
@@ -107,7 +107,7 @@ func VerifC11RunCfg(c VerifC11Case, dir string) (obs VerifC11Obs) {
 	debug.SetMaxStack(4 << 20) // a runaway recursion ends quickly (default limit is 1 GB)
 	_ = os.MkdirAll(dir, 0o755)
 	cfg := verifC11Cfg(dir)
-	sd := &statsd.NoOpClient{}
+	sd := &verifC11PanicStatsd{armed: c.Transform == "panic"}
 	store := server.NewStore(cfg, sd)
 	bus, err := server.NewBus(cfg)
 	if err != nil {
@@ -153,7 +153,7 @@ func VerifC11RunCfg(c VerifC11Case, dir string) (obs VerifC11Obs) {
 	transform := map[string]string{
 		"none":  ``,
 		"js":    fmt.Sprintf(`"transform":{"Type":"JavascriptTransform","Code":"%s"},`, code),
-		"jspar": fmt.Sprintf(`"transform":{"Type":"JavascriptTransform","Parallelism":10,"Code":"%s"},`, code),
+		"panic": fmt.Sprintf(`"transform":{"Type":"JavascriptTransform","Code":"%s"},`, code),
 	}[c.Transform]
 	handlers := map[string]string{
 		"none":     ``,
@@ -242,6 +242,21 @@ func VerifC11RunCfg(c VerifC11Case, dir string) (obs VerifC11Obs) {
 	// the process exits right after this (store.Close costs about a second and is not needed: died runs are
 	// re-read by the parent from the files, live ones report what they read themselves)
 	return
+}
+
+// verifC11PanicStatsd makes "a run panics" a building block of its own: both pipelines call
+// statsdClient.Timing("pipeline.transform.batch", ...) in the goroutine of the run right after the transform
+// of a page; when armed that call panics.  No other defect of the tree is needed to make a run panic.
+type verifC11PanicStatsd struct {
+	statsd.NoOpClient
+	armed bool
+}
+
+func (s *verifC11PanicStatsd) Timing(name string, value time.Duration, tags []string, rate float64) error {
+	if s.armed && name == "pipeline.transform.batch" {
+		panic("verif: injected panic in the transform stage")
+	}
+	return nil
 }
 
 // ---------------------------------------------------------------------------------------------- raffle
